@@ -182,6 +182,8 @@ def c13Verdict (db : V) (encB : List UInt8) (gz : String) : Option String :=
       -- what the document must say, from the declarative schema: structure and texts
       match marshalValue Spec.schema 64 "LapTimerDB" false dbT db with
       | .ok want =>
+        -- premise of `document_is_laptimer_rendering`: names without '&'
+        if !(want.all Xml.tokOk) then some "SKIP reason=name-with-ampersand" else
         let wantSig := significant (want.map fun t => match t with
           | .text s => Xml.XTok.text (Text.substitute s)
           | .start n as => .start n (as.map fun (k, v) => (k, Text.substitute v))
